@@ -295,12 +295,15 @@ func (m *model) commandAbbr(nc string, nd int, trig string) (int, outcome) {
 	return state, out
 }
 
-func (m *model) insert(r rune) []outcome {
+func (m *model) insert(r rune) []outcome { return m.insertWith(r, m.hyps) }
+
+// insertWith is insert under the given hypotheses about the consecutively typed text.
+func (m *model) insertWith(r rune, hyps []string) []outcome {
 	trig := string(r)
 	nc := m.content[:m.dot] + trig + m.content[m.dot:]
 	nd := m.dot + len(trig)
 	var outs []outcome
-	for _, h := range m.hyps {
+	for _, h := range hyps {
 		ins := h + trig
 		rest := m.nonCommand(nc, nd, ins, trig)
 		state, cmd := m.commandAbbr(nc, nd, trig)
@@ -392,6 +395,20 @@ func runArea(c *mon.Case) {
 		}
 	}
 	evs := genEvents(r, tabs)
+	if c.I < 2 {
+		// directed: the example of insert_api.d.elv ("typing a |, moving the cursor
+		// left, and typing another | does not expand"), and the same with the
+		// cursor moved back before the second |
+		tabs = [3][]pair{{{"||", "| less"}}, nil, nil}
+		init = tk.CodeBuffer{}
+		idx := func(name string) int { return sort.SearchStrings(builtinNames, name) }
+		l, rt := idx("move-dot-left"), idx("move-dot-right")
+		evs = []event{{kind: "key", key: ui.K('|')}, {kind: "key", key: keyOf(l), bound: "move-dot-left"}}
+		if c.I == 1 {
+			evs = append(evs, event{kind: "key", key: keyOf(rt), bound: "move-dot-right"})
+		}
+		evs = append(evs, event{kind: "key", key: ui.K('|')})
+	}
 
 	bindings := tk.MapBindings{}
 	for i, name := range builtinNames {
@@ -420,6 +437,11 @@ func runArea(c *mon.Case) {
 		return ss
 	}
 	interesting := false
+	// what the code area would still believe to be "consecutively typed" if it
+	// missed an interruption: the hypotheses and buffer right after the last plain insert
+	var staleHyps []string
+	var staleBuf tk.CodeBuffer
+	interrupted := false
 	for i, e := range evs {
 		before := tk.CodeBuffer{Content: m.content, Dot: m.dot}
 		outs, class := m.step(e)
@@ -455,6 +477,20 @@ func runArea(c *mon.Case) {
 				kinds[o.kind] = true
 			}
 		}
+		if len(hyps) == 0 && class == "insert" && interrupted && staleHyps != nil && before == staleBuf {
+			// Typing was interrupted by editing commands that changed the buffer and
+			// whose net effect restored it. insert_api.d.elv: "typed in full and
+			// consecutively, without being interrupted by the use of other editing
+			// functionalities, such as cursor movements".
+			for _, o := range m.insertWith(e.key.Rune, staleHyps) {
+				if o.content == got.Content && o.dot == got.Dot && o.kind != "plain" {
+					c.Violation("area:abbr-expanded-after-interruption-that-restored-buffer",
+						fmt.Sprintf("after %s on %s dot %d the %s abbreviation was expanded (%s) although editing commands that changed the buffer were used since the abbreviation's earlier characters were typed",
+							e, mon.Q(before.Content), before.Dot, o.kind, mon.Q(got.Content)), witf())
+					return
+				}
+			}
+		}
 		if len(hyps) == 0 {
 			sig := "area:" + class + "-wrong"
 			if class == "insert" {
@@ -473,6 +509,16 @@ func runArea(c *mon.Case) {
 			return
 		}
 		m.content, m.dot, m.hyps = got.Content, got.Dot, hyps
+		switch {
+		case class == "insert" && len(kinds) == 1 && kinds["plain"]:
+			staleHyps, staleBuf, interrupted = hyps, got, false
+		case class == "bound-command":
+			if got != before {
+				interrupted = true
+			}
+		default:
+			staleHyps = nil
+		}
 		if len(hyps) > maxHyps {
 			maxHyps = len(hyps)
 		}
